@@ -1,0 +1,17 @@
+//go:build verif
+
+// Package verifhooks re-exports internal entry points for the external verification harness.
+// It is compiled only with the build tag "verif".
+package verifhooks
+
+import (
+	"github.com/atlassian/gostatsd"
+	"github.com/atlassian/gostatsd/internal/lexer"
+	"github.com/atlassian/gostatsd/internal/pool"
+)
+
+// LexLine runs the line lexer (internal/lexer) on one line. The lexer rewrites the line in place.
+func LexLine(line []byte, namespace string) (*gostatsd.Metric, *gostatsd.Event, error) {
+	l := lexer.Lexer{MetricPool: pool.NewMetricPool(0)}
+	return l.Run(line, namespace)
+}
